@@ -75,9 +75,21 @@ class Fixture:
 class NeuronFix(Fixture):
     kind = "neuron"
 
-    def __init__(self, rng, B, mode, cls):
+    # (module mode, `adapt` argument): the first four keep adaptations frozen (no coupling declared);
+    # "coupled-same" updates them (declared coupling) with identical samples and the default mean reduction
+    VARIANTS = [("eval", False), ("eval", None), ("train", False), ("coupled-same", True), ("coupled-same", None)]
+
+    def __init__(self, rng, B, mode, cls, variant=None, resize=False):
         super().__init__(rng, B, mode)
         self.cls = cls
+        self.variant = variant if variant is not None else ("eval", False)
+        self.coupled = self.variant[0] == "coupled-same"
+        self.resize_at = rng.randint(3, 6) if resize else None
+        self.resize_to = None
+        if resize == "grow":
+            self.resize_to = B + rng.randint(1, 2)
+        elif resize:
+            self.resize_to = rng.randint(1, B - 1)
         self.shape = rng.choice([(3,), (2, 2), (4,)])
         self.lock = rng.random() < 0.6
         if mode == "exact":
@@ -111,11 +123,15 @@ class NeuronFix(Fixture):
                     K = len(p[key])
             self.preset = (dy_tensor(rng, self.shape + (K,), signed=False, lo=-2, hi=0) if mode == "exact"
                            else real_tensor(rng, self.shape + (K,), 0.0, 1.5))
-        self.desc = dict(cls=cls, shape=list(self.shape), lock=self.lock, D=self.D, R=self.R, tick=self.tick)
+        self.desc = dict(cls=cls, shape=list(self.shape), lock=self.lock, D=self.D, R=self.R, tick=self.tick,
+                         module_mode=self.variant[0], adapt=str(self.variant[1]), resize_to=self.resize_to)
 
     def make(self, batch):
         n = build_neuron(self.cls, self.shape, batch, self.dt, self.R * self.tick, self.params)
-        n.eval()
+        if self.variant[0] == "eval":
+            n.eval()
+        else:
+            n.train()
         if self.preset is not None:
             if self.cls in ADAPTIVE_THRESH:
                 n.threshold_adaptation = self.preset.clone()
@@ -129,18 +145,33 @@ class NeuronFix(Fixture):
     def draw(self, t):
         rng = self.rng
         shp = (self.B,) + self.shape
+        n1 = int(math.prod(self.shape))
+        cnt = n1 if self.coupled else n1 * self.B
         if self.mode == "exact":
-            vals = [rng.choice([0.0, 16.0, 8.0, -8.0, 4.0, 32.0]) for _ in range(int(math.prod(shp)))]
+            vals = [rng.choice([0.0, 16.0, 8.0, -8.0, 4.0, 32.0]) for _ in range(cnt)]
         else:
-            vals = [rng.choice([0.0, rng.uniform(-20, 60), rng.uniform(5, 25), 1e4, -50.0]) for _ in range(int(math.prod(shp)))]
-        return (torch.tensor(vals, dtype=torch.float32).reshape(shp),)
+            vals = [rng.choice([0.0, rng.uniform(-20, 60), rng.uniform(5, 25), 1e4, -50.0]) for _ in range(cnt)]
+        x = torch.tensor(vals, dtype=torch.float32)
+        if self.coupled:       # identical samples
+            return (x.reshape((1,) + self.shape).repeat((self.B,) + (1,) * len(self.shape)),)
+        return (x.reshape(shp),)
 
     def step(self, obj, inputs):
-        return neuron_forward(obj, self.cls, inputs[0], self.lock, False)
+        if self.cls in ADAPTIVE:
+            return obj(inputs[0], adapt=self.variant[1], refrac_lock=self.lock)
+        return obj(inputs[0], refrac_lock=self.lock)
 
     def stages(self, obj, out):
         r = obj.refrac / self.tick
-        return [([out, torch.round(r * 1024)], [obj.voltage])]
+        real = [obj.voltage]
+        if self.cls in ADAPTIVE:   # shared over the batch: every sample sees the same adaptation
+            ad = obj.threshold_adaptation if self.cls in ADAPTIVE_THRESH else obj.current_adaptation
+            real.append(ad.unsqueeze(0).expand((out.shape[0],) + tuple(ad.shape)))
+        return [([out, torch.round(r * 1024)], real)]
+
+    def resize(self, obj, batch):
+        """through the public `batchsz` setter (documented to clear the state)"""
+        obj.batchsz = batch
 
 
 # ------------------------------------------------------------------ synapses
@@ -480,6 +511,14 @@ class LayerFix(Fixture):
         return [([], list(out["c"])), (disc, [n.voltage for n in ns])]
 
 
+class BatchedRaised(Exception):
+    """the batched instance raised where the single instances did not"""
+
+    def __init__(self, step, exc):
+        super().__init__(f"step {step}: {type(exc).__name__}: {exc}")
+        self.step, self.exc = step, exc
+
+
 def run_pair(fix: Fixture, steps: int):
     """Drive the batched instance and the B singles; returns per step the per-sample stages
     of both, plus (for trainers) the accumulated parts."""
@@ -488,17 +527,33 @@ def run_pair(fix: Fixture, steps: int):
     singles = [fix.make(1) for _ in range(B)]
     log = []
     for t in range(steps):
+        resized = False
+        if getattr(fix, "resize_at", None) == t:
+            B2 = fix.resize_to
+            try:
+                fix.resize(batched, B2)
+            except Exception as e:   # noqa: BLE001
+                raise BatchedRaised(t, e)
+            for sgl in singles[:B2]:
+                fix.resize(sgl, 1)               # same public call on the single copies: clears them
+            singles = singles[:B2] + [fix.make(1) for _ in range(max(0, B2 - len(singles)))]
+            fix.B = B = B2
+            resized = True
         inputs = fix.draw(t)
-        ob = fix.step(batched, inputs)
-        sb = fix.stages(batched, ob)
         per = []
         accs = []
+        outs = []
         for i in range(B):
             oi = fix.step(singles[i], fix.slice_inputs(inputs, i))
             per.append(fix.stages(singles[i], oi))
             if isinstance(oi, dict) and "acc" in oi:
                 accs.append(oi["acc"])
-        rec = {"b": sb, "s": per}
+        try:
+            ob = fix.step(batched, inputs)
+            sb = fix.stages(batched, ob)
+        except Exception as e:   # noqa: BLE001  (the singles ran this step without raising)
+            raise BatchedRaised(t, e)
+        rec = {"b": sb, "s": per, "B": B, "resize": resized}
         if isinstance(ob, dict) and "acc" in ob:
             rec["acc_b"] = ob["acc"]
             rec["acc_s"] = accs
